@@ -137,6 +137,15 @@ func c13gen(r *rand.Rand, depth int, st *[2]int) *c13node {
 	default:
 		k, a := c13keys[r.Intn(len(c13keys))], c13acts[r.Intn(len(c13acts))]
 		sep := []string{": ", ":", ":\t", " : "}[r.Intn(3)]
+		// one bind in eight rebinds its key at once with the other kind of binding and the same text (the function
+		// kill-line, then the macro "kill-line", or the reverse): the function-versus-macro distinction is the last one written
+		if r.Intn(8) == 0 {
+			fn, mac := k.text+sep+a, k.text+": \""+a+"\""
+			if r.Intn(2) == 0 {
+				return &c13node{text: fn + "\n" + mac, kind: "bind", seq: k.seq, bind: inputrc.Bind{Action: a, Macro: true}}
+			}
+			return &c13node{text: mac + "\n" + fn, kind: "bind", seq: k.seq, bind: inputrc.Bind{Action: a}}
+		}
 		return &c13node{text: k.text + sep + a, kind: "bind", seq: k.seq, bind: inputrc.Bind{Action: a}}
 	}
 }
